@@ -238,7 +238,7 @@ PROPS = {
     },
     "C01": {
         "level": "proof",
-        "suites": ["hist"],
+        "suites": ["hist", "crash"],
         "columns": ["verdict", "files"],
         "rule": PROPS_HIST_RULE + " Monitor: after every successful build (whole or goal-restricted) every in-scope target is compared with an evaluator written independently of ruler (own dependency order, own interpreter of the command mini-language) that computes the from-scratch contents from the current source files.",
         "trusted_base": COMMON_TB + ["hash collision freedom idealised (free symbolic hashes; generic theorems take injectivity hypotheses)", "directories not modelled"],
